@@ -91,6 +91,7 @@ fn run_lines() {
             "early" => c12::early(&mut t),
             "restart" => c13::restart(&mut t),
             "inflight" => c13::inflight(&mut t),
+            "realstop" => c13::realstop(&mut t),
             "schema" => c15::schema(&mut t),
             "authz" => c17::authz(&mut t),
             "backup" => c19::backup(&mut t),
